@@ -61,6 +61,12 @@ pub enum Ev {
     /// an observer was read from inside a node function / bind closure / cutoff
     ReadInFn { slot: u8, result: Result<Val, ObsErr> },
     ReadInHandler { sub: u8, slot: u8, result: Result<Val, ObsErr> },
+    /// the observability callback of expert node `node` ran (`now` = it became observed)
+    ObsChange { node: u8, now: bool },
+    /// the on-change edge callback of expert node `node` ran with the child's value
+    EdgeCb { node: u8, val: Val },
+    /// an observer was read from inside an observability callback
+    ReadInObsCb { slot: u8, result: Result<Val, ObsErr> },
 }
 
 impl Ev {
@@ -70,7 +76,12 @@ impl Ev {
             _ => None,
         }
     }
-    pub fn is_user_fn(&self) -> bool {
+    /// node functions, bind closures, cutoff functions: what C05 / C09 mean by "node function" / "propagation"
+    pub fn is_node_fn(&self) -> bool {
         matches!(self, Ev::Run { .. } | Ev::FoldStep { .. } | Ev::BindRun { .. } | Ev::Cutoff { .. })
+    }
+    /// any instrumented user closure that is not an update handler (C13: must not run in a refused stabilise)
+    pub fn is_user_fn(&self) -> bool {
+        matches!(self, Ev::Run { .. } | Ev::FoldStep { .. } | Ev::BindRun { .. } | Ev::Cutoff { .. } | Ev::ObsChange { .. } | Ev::EdgeCb { .. })
     }
 }
